@@ -66,8 +66,20 @@ func c06Profiles(quick bool) []*bworld.Profile {
 	slowlog.LogGate = true
 	slowlog.Cancel = false
 	slowlog.MaxLines, slowlog.MaxOuts = 0, 0
+	/* Unidirectional streams whose IDs look like the names the program uses
+	for the bidirectional endpoint (a path segment is percent-decoded: it can
+	be "/io", "io", or anything else): they are not halves of a /io request. */
+	odd := base
+	odd.Name = "c06-io+endpoint-like-ids"
+	odd.Starts = []bworld.StartSpec{
+		{Kind: "io", WKind: 3, Max: 1},
+		{Kind: "out", Key: "/io", Max: 1}, {Kind: "in", Key: "/io", Max: 1},
+		{Kind: "out", Key: "io", Max: 1}, {Kind: "in", Key: "io", Max: 1},
+	}
+	odd.MaxAttempts = 3
+	odd.Cancel = false
 	if quick {
-		return []*bworld.Profile{&two, &slowlog}
+		return []*bworld.Profile{&two, &odd, &slowlog}
 	}
 	slowlog.MaxAttempts = 3
 	three := base
@@ -83,7 +95,7 @@ func c06Profiles(quick bool) []*bworld.Profile {
 	four.MaxAttempts = 4
 	four.Cancel = false
 	four.Shutdown = true
-	return []*bworld.Profile{&two, &three, &four, &slowlog}
+	return []*bworld.Profile{&two, &odd, &three, &four, &slowlog}
 }
 
 func c06(r *ev.Result, tier string) {
